@@ -37,10 +37,13 @@ Known(t) == t \in Threads
 
 \* "raise if it times out": a timed send never starts a wait on the window condition whose deadline lies beyond
 \* (last progress of the call) + (the channel timeout) - however often it was woken in between
-LateWait == E.ev = "wait" /\ E.dl >= 0 /\ E.th \in Threads /\ E.dl - since[E.th] > R.par.budget
+\* (since[t] = the deadline of the FIRST wait the call started after its last progress, -1 = none yet: the budget runs from
+\*  the moment the call starts to wait, not from the moment the driver logged the call - the scheduler may let other threads
+\*  and the virtual clock run in between.  A later wait of the same stall must not reach beyond that first deadline.)
+LateWait == E.ev = "wait" /\ E.dl >= 0 /\ E.th \in Threads /\ since[E.th] >= 0 /\ E.dl > since[E.th]
 
 TInit ==
-  /\ tid \in 1..Len(Batch) /\ l = 1 /\ bad = {} /\ since = [t \in Threads |-> 0]
+  /\ tid \in 1..Len(Batch) /\ l = 1 /\ bad = {} /\ since = [t \in Threads |-> -1]
   /\ win = [X \in Sides |-> R.par.win[X]] /\ thresh = [X \in Sides |-> R.par.thresh[X]]
   /\ maxpkt = [X \in Sides |-> R.par.maxpkt[X]] /\ peermax = [X \in Sides |-> R.par.peermax[X]]
   /\ tmo = [X \in Sides |-> R.par.tmo[X]]
@@ -96,7 +99,9 @@ Event ==
        [] E.ev = "deliver" -> Dispatch [] E.ev = "done" -> Done [] E.ev = "lost" -> LostEv
        [] E.ev = "wait" -> UNCHANGED <<thr, chan, tr, robs>> /\ NoEmit
   /\ since' = IF E.th \in Threads /\ (E.ev = "call" \/ (E.ev = "emit" /\ E.t \in DataT))
-                 THEN [since EXCEPT ![E.th] = E.now] ELSE since
+                 THEN [since EXCEPT ![E.th] = -1]
+                 ELSE IF E.ev = "wait" /\ E.th \in Threads /\ E.dl >= 0 /\ since[E.th] < 0
+                 THEN [since EXCEPT ![E.th] = E.dl] ELSE since
   /\ bad' = Failed(Clauses \ AtRestOnly)'
             \cup (IF E.ev = "deliver" /\ ~FifoOk THEN {"C_fifo"} ELSE {})
             \cup (IF E.ev = "emit" /\ E.dropped = alive[E.side] THEN {"C_dropped"} ELSE {})
